@@ -1,11 +1,12 @@
 import OsloPolicy.Proofs.SampleGen
+import OsloPolicy.Proofs.JsonRoundTrip
 /-
 C17 — a generated sample policy file overrides nothing and states every default.
 For every `wrap` satisfying textwrap's contract (`WrapOK`) and every `splitlines` satisfying
 `SplitOK`; descriptions and reasons are arbitrary text (they only enter through those two).
-The model writes a check string between double quotes, which is what the generator does
-for the property's "printable" check strings (free of double quotes, backslashes and
-control characters); other values go through the JSON serializer (library).
+The model writes a check string the way `_format_check_str` does: between double quotes as it is,
+or through the JSON string encoder (modelled: `jsonEscChar`) when it holds a double quote, a
+backslash or a control character.
 -/
 namespace OsloPolicy.C17
 open OsloPolicy
@@ -41,6 +42,20 @@ theorem help_text_is_comment (wrap) (hw : WrapOK wrap) (ols : Option (List Str))
 
 /-- The JSON sample's entries are exactly `"name": "check_str"` of the defaults, in order. -/
 theorem json_sample (ds : List GenDefault) : sampleJsonEntries ds = ds.map ruleText := json_entries ds
+
+/-- **What is written for a check string reads back as that check string**, whatever it contains: `formatCheckStr`
+(`_format_check_str`: plain double quoting, or `json.dumps` when there is a double quote, backslash or control
+character) followed by a reader of JSON double-quoted scalars (`jsonDecode`: the escapes `\"` `\\` `\/` `\n` `\r`
+`\t` `\b` `\f` `\uXXXX`, surrogate pairs) is the identity. With `states_every_default` (the rule lines are exactly
+`#"name": <formatted check string>`) this is "un-commenting maps each name to exactly its default check string" at
+the level of text, for the JSON sample and for a YAML reader wherever the two escape languages coincide
+(everything except characters above U+FFFF, which JSON writes as a surrogate pair). -/
+theorem check_string_round_trip (s : Str) : jsonDecode (formatCheckStr s) = some s :=
+  decode_formatCheckStr s
+
+/-- … and the formatted check string never contains a line break, even when the check string does. -/
+theorem escaped_check_string_one_line (s : Str) (h : needsEscape s = true) : NoBreak (formatCheckStr s) :=
+  noBreak_formatCheckStr_escaped s h
 
 /-! Non-vacuity: the wrap contract is satisfiable (a wrapper that emits one `# …` line). -/
 example : WrapOK (fun s => if s.all (fun c => !isBreak c) then [hashSp s] else []) := by
